@@ -294,6 +294,10 @@ func (p *pathIterator) str() (string, error) {
 		}
 	}
 ret:
+	if i > len(p.src) {
+		// a trailing backslash steps past the end
+		i = len(p.src)
+	}
 	val := p.src[p.pos:i]
 	p.pos = i
 	val, err := strconv.Unquote(val)
